@@ -280,6 +280,7 @@ def run_single(ctx, name, a, q=0):
     except OutOfDomain:
         return sweep.Outcome('ood')
     except Exception as e:   # noqa
+        __import__('vxlib.symx.core', fromlist=['x']).proxy_rejected(e)
         return sweep.Outcome('exc', exc=e)
     return sweep.Outcome('text', text=s, trace=t, pieces=ctx.template(s))
 
